@@ -204,6 +204,12 @@ def bottleneck_matching(dgm1, dgm2, matching, labels=["dgm1", "dgm2"], ax=None):
     cp = np.cos(np.pi / 4)
     sp = np.sin(np.pi / 4)
     R = np.array([[cp, -sp], [sp, cp]])
+    # the rows of `matching` index the points that bottleneck() kept,
+    # i.e. the diagrams without their infinite deaths
+    if dgm1.size > 0:
+        dgm1 = dgm1[np.isfinite(dgm1[:, 1])]
+    if dgm2.size > 0:
+        dgm2 = dgm2[np.isfinite(dgm2[:, 1])]
     if dgm1.size == 0:
         dgm1 = np.array([[0, 0]])
     if dgm2.size == 0:
@@ -270,8 +276,16 @@ def wasserstein_matching(dgm1, dgm2, matching, labels=["dgm1", "dgm2"], ax=None)
         dgm1 = np.array([[0, 0]])
     if dgm2.size == 0:
         dgm2 = np.array([[0, 0]])
-    dgm1Rot = dgm1.dot(R)
-    dgm2Rot = dgm2.dot(R)
+    # the rows of `matching` index the points that wasserstein() kept,
+    # i.e. the diagrams without their infinite deaths
+    pts1 = dgm1[np.isfinite(dgm1[:, 1])]
+    pts2 = dgm2[np.isfinite(dgm2[:, 1])]
+    if pts1.size == 0:
+        pts1 = np.array([[0, 0]])
+    if pts2.size == 0:
+        pts2 = np.array([[0, 0]])
+    dgm1Rot = pts1.dot(R)
+    dgm2Rot = pts2.dot(R)
     for [i, j, d] in matching:
         i = int(i)
         j = int(j)
@@ -279,12 +293,12 @@ def wasserstein_matching(dgm1, dgm2, matching, labels=["dgm1", "dgm2"], ax=None)
             if i == -1:
                 diagElem = np.array([dgm2Rot[j, 0], 0])
                 diagElem = diagElem.dot(R.T)
-                ax.plot([dgm2[j, 0], diagElem[0]], [dgm2[j, 1], diagElem[1]], "g")
+                ax.plot([pts2[j, 0], diagElem[0]], [pts2[j, 1], diagElem[1]], "g")
             elif j == -1:
                 diagElem = np.array([dgm1Rot[i, 0], 0])
                 diagElem = diagElem.dot(R.T)
-                ax.plot([dgm1[i, 0], diagElem[0]], [dgm1[i, 1], diagElem[1]], "g")
+                ax.plot([pts1[i, 0], diagElem[0]], [pts1[i, 1], diagElem[1]], "g")
             else:
-                ax.plot([dgm1[i, 0], dgm2[j, 0]], [dgm1[i, 1], dgm2[j, 1]], "g")
+                ax.plot([pts1[i, 0], pts2[j, 0]], [pts1[i, 1], pts2[j, 1]], "g")
 
     plot_diagrams([dgm1, dgm2], labels=labels, ax=ax)
